@@ -82,6 +82,13 @@ class CodeInfo:
         for e in self.extable:
             self.leaders.add(e[2])
         self._loopvec_cache = {}
+        self.for_header = {}
+        for i, ins in enumerate(self.instrs):
+            if ins.opname == "FOR_ITER":
+                j = i
+                while j > 0 and self.instrs[j - 1].opname == "EXTENDED_ARG":
+                    j -= 1
+                self.for_header[i] = j
         self.plain = [i for i in range(code.co_nlocals) if names[i] not in code.co_cellvars]
         self.live = self._liveness()
         self.is_gen = bool(code.co_flags & CO_GENERATOR)
@@ -242,7 +249,17 @@ def same_value(a, b):
     if ta in (int, str, bytes, bool, float):
         return a == b
     if ta is VIter:
-        return a.seq is b.seq and a.i == b.i
+        if a.i != b.i:
+            return False
+        if a.seq is b.seq:
+            return True
+        if a.src is b.src and len(a.seq) == len(b.seq):
+            sa, sb = a.seq, b.seq
+            for k in range(a.i, len(sa)):
+                if sa[k][0] is not sb[k][0] or sa[k][1] is not sb[k][1]:
+                    return False
+            return True
+        return False
     if ta is SlotRef:
         return a.lst is b.lst and a.j == b.j
     if ta is VMethod:
@@ -352,7 +369,7 @@ class ModelEval:
 # --------------------------------------------------------------------------- the machine
 
 JUMPED = object()
-MISSING = object()
+from .values import MISSING  # noqa: E402
 _ATOM_TYPES = (int, str, bytes, bool, float, type(None), complex)
 
 
@@ -406,6 +423,7 @@ class VM:
         self.named = {}
         self.name_threshold = 48
         self.access_log = None  # Engine B: list of field accesses for the lockset analysis
+        bexp.namer = self.name_guard
         from . import natives
         natives.install(self)
 
